@@ -1,7 +1,7 @@
 #!/bin/bash
 # tools/mut.sh <patch.diff> <ID> [<ID>...]: apply a deliberate property-breaking change to /repo, run checks, revert.
 set -u
-P="$1"; shift
+P="$(realpath "$1")"; shift
 cd /repo || exit 2
 if [ -n "$(git status --porcelain)" ]; then echo "/repo not clean" >&2; exit 2; fi
 git apply "$P" || { echo "patch does not apply" >&2; exit 2; }
